@@ -67,6 +67,11 @@ func openFileToReader(filename string, gunzip bool) (io.ReadCloser, error) {
 
 	if gunzip {
 		zfile, err := gzip.NewReader(file)
+		if err != nil && err != gzip.ErrHeader && err != io.EOF && err != io.ErrUnexpectedEOF {
+			// Not a question of format: the file cannot be read
+			baseFile.Close()
+			return nil, err
+		}
 		if err != nil {
 			logger.Printf("Gunzip error for file %s: %v; Reading as plain file", filename, err)
 			baseFile.Seek(0, io.SeekStart) // Rewind, since it probably took a few bytes to figure out this wasn't a gzip file
